@@ -43,7 +43,15 @@ CrossCases == <<
   [tree |-> "legacy", over |-> "{\"season\": {\"january\": \"monsoon\"}}", expect |-> "rejected"],
   [tree |-> "legacy", over |-> "{\"weekday_weekend\": {\"friday\": \"holiday\"}}", expect |-> "rejected"],
   [tree |-> "legacy", over |-> "{\"uncertainty_alpha\": 1.5}", expect |-> "rejected"],
-  [tree |-> "legacy", over |-> "{\"season\": {\"march\": \"winter\"}, \"weekday_weekend\": {\"friday\": \"weekend\"}, \"uncertainty_alpha\": 0.2}", expect |-> "acceptedNoDev"]
+  [tree |-> "legacy", over |-> "{\"season\": {\"march\": \"winter\"}, \"weekday_weekend\": {\"friday\": \"weekend\"}, \"uncertainty_alpha\": 0.2}", expect |-> "acceptedNoDev"],
+  \* hourly tree: the iteration controls of the adaptive weights go with the switch (presence, not truthiness: 0 is a permitted tolerance)
+  [tree |-> "hourly", over |-> "{\"elasticnet\": {\"adaptive_weights\": true}}", expect |-> "rejected"],
+  [tree |-> "hourly", over |-> "{\"elasticnet\": {\"adaptive_weights\": true, \"adaptive_weight_max_iter\": 5}}", expect |-> "rejected"],
+  [tree |-> "hourly", over |-> "{\"elasticnet\": {\"adaptive_weights\": true, \"adaptive_weight_max_iter\": 5, \"adaptive_weight_tol\": 0.001}}", expect |-> "accepted"],
+  [tree |-> "hourly", over |-> "{\"elasticnet\": {\"adaptive_weights\": true, \"adaptive_weight_max_iter\": 5, \"adaptive_weight_tol\": 0.0}}", expect |-> "accepted"],
+  [tree |-> "hourly", over |-> "{\"elasticnet\": {\"adaptive_weight_tol\": 0.0}}", expect |-> "rejected"],
+  [tree |-> "hourly", over |-> "{\"elasticnet\": {\"adaptive_weight_max_iter\": 5}}", expect |-> "rejected"],
+  [tree |-> "hourly", over |-> "{\"elasticnet\": {\"adaptive_weight_tol\": 0.001}}", expect |-> "rejected"]
 >>
 
 Clauses(in, out) ==
